@@ -37,6 +37,9 @@ def render_topology(case):
                            'con_in': _opt(e['ci']), 'con_out': _opt(e['co'])}
             if e.get('ai', 0) not in (0, NONE):
                 d['params']['att_in'] = e['ai'] / UDB
+            if e.get('ct'):                                    # loss coefficient given per frequency (MHz, mdB/km)
+                d['params']['loss_coef'] = {'value': [v / 1000 for _, v in e['ct']],
+                                            'frequency': [f * 1e6 for f, _ in e['ct']]}
             if t == 'RamanFiber':
                 d['operational'] = copy.deepcopy(RAMAN_OPERATIONAL)
         elif t == 'Fused':
@@ -117,12 +120,16 @@ def project_network(net, input_names=None, unit=100.0):
         t = type(n).__name__
         r = dict(name=n.uid, type=t, succ=[idx[id(x)] for x in net.successors(n)],
                  pred=[idx[id(x)] for x in net.predecessors(n)], len=0, coef=NONE, variety='', conIn=NONE, conOut=NONE,
-                 attIn=NONE, loss=0, sub=[], origin='')
+                 attIn=NONE, loss=0, sub=[], origin='', coefTab=[])
         if isinstance(n, E.Fiber):
             p = n.params
             r['len'] = int(round(p.length * unit))
             lc = np.atleast_1d(p.loss_coef)
             r['coef'] = int(round(float(lc[0]) * 1e9)) if lc.size == 1 else NONE      # dB/m -> micro-dB/km
+            if lc.size > 1:                                    # per frequency: [[MHz, micro-dB/km], ...]
+                fr = np.atleast_1d(p.f_loss_ref)
+                r['coefTab'] = [[int(round(float(f) / 1e6)), int(round(float(v) * 1e9))] for f, v in zip(fr, lc)] \
+                    if fr.size == lc.size else [[NONE, int(round(float(v) * 1e9))] for v in lc]
             r['variety'] = n.type_variety or ''
             r['conIn'], r['conOut'], r['attIn'] = udb(p.con_in), udb(p.con_out), udb(p.att_in)
             if p.con_in is not None and p.con_out is not None:
